@@ -1,4 +1,6 @@
 import Tickit.Model.TermPen
+import Tickit.Model.TermSuspend
+import Tickit.Gen.TermBuf
 import Tickit.Driver.Common
 /-
   Engine `sgr` (C10).
@@ -6,6 +8,9 @@ import Tickit.Driver.Common
         with <pen>: the history starts with <pen> in force (a `setpen <pen>` issued as part of the construction and judged like
         any other request; observation `<construction> init <request>`)
     setpen <pen> | chpen <pen> | palette
+    suspend        tickit_term_pause then tickit_term_resume (`Model/TermSuspend.lean`); the logical pen is unchanged, so the
+                   terminal — after the bytes of pause (which reset the rendering attributes) and of resume — must again render
+                   with it.  Configuration `g`: the harness's driver stands for the xterm driver, whose `pause` writes `ESC [ m`.
   Model observation = what harness/sgr.c prints.  Specification verdict: the SGR interpreter of
   `Model/Sgr.lean` is run on the bytes the *implementation* emitted (configuration `x`), or on the
   bytes the modelled xterm encoder produces from the (delta, final) pens the *implementation* handed
@@ -78,6 +83,8 @@ structure DState where
   /-- specification: the logical pen and the terminal as driven by the implementation -/
   logical : Pen := {}
   vt : VT := {}
+  /-- does `tickit_term_resume` hand the cached pen to the driver's `chpen` (read from the source) -/
+  resend : Bool := Tickit.Gen.TermBuf.term_resume_resends_pen
 deriving Inhabited
 
 def showColr : Colr → String
@@ -184,6 +191,46 @@ def penOp (st : DState) (op : Op) (impl : String) : DState × String × String :
                 else s!"no (delta, final) to interpret: implementation said '{impl}'")
     ({ st with cache := cache', logical := l', vt := vt' }, mobs, sv)
 
+/-- `suspend`: pause + resume. -/
+def suspendOp (st : DState) (impl : String) : DState × String × String :=
+  let its := toks impl
+  let crash := if impl.startsWith "CRASH" then s!"the implementation aborted under the sanitizers ({impl})"
+               else s!"nothing to interpret: implementation said '{impl}'"
+  let pre (s : String) : String := if s = "" then "" else "after pause + resume: " ++ s
+  if st.mode = "x" then
+    let (mobs, dead') : String × Bool :=
+      if st.dead then ("ub after-overflow", true) else
+      match resumeChpen st.cfg.caps st.cfg.cap st.resend st.cache with
+      | .overflow n => (s!"ub params-overflow needed={n} cap={st.cfg.cap}", true)
+      | .bytes bs => (s!"p={bytesHexN xtermPauseBytes} b={bytesHexN (xtermResumeBytes ++ bs)} pen={showPen st.cache}", false)
+    let (vt', sv) : VT × String :=
+      match (field? its "p").bind hexBytes?, (field? its "b").bind hexBytes? with
+      | some ps, some bs =>
+        let bytes := bs.map (·.toNat)
+        let vt' := run bytes (run (ps.map (·.toNat)) st.vt)
+        (vt', pre (specAfter st vt' st.logical bytes false))
+      | _, _ => (st.vt, crash)
+    ({ st with dead := dead', vt := vt' }, mobs, sv)
+  else
+    let mobs :=
+      if st.resend then s!"pause=1 resume=1 order=prc n=1 d={showPen st.cache} f={showPen st.cache} pen={showPen st.cache}"
+      else s!"pause=1 resume=1 order=pr n=0 d=? f=? pen={showPen st.cache}"
+    let vt1 := run xtermResumeBytes (run xtermPauseBytes st.vt)
+    let (vt', sv) : VT × String :=
+      match field? its "n" with
+      | some "0" => (vt1, pre (specAfter st vt1 st.logical [] false))
+      | some _ =>
+        match (field? its "d").bind parsePen, (field? its "f").bind parsePen with
+        | some d, some f =>
+          match xtermChpen st.cfg.caps st.cfg.cap d f with
+          | .bytes bytes =>
+            let vt' := run bytes vt1
+            (vt', pre (specAfter st vt' st.logical bytes false))
+          | .overflow n => (st.vt, s!"the xterm encoder would need {n} parameters")
+        | _, _ => (st.vt, crash)
+      | none => (st.vt, crash)
+    ({ st with vt := vt' }, mobs, sv)
+
 def stepBase (st : DState) (ts : List String) (impl : String) : DState × String × String :=
   match ts with
   | ["new", "x", rgb8, colon, how] =>
@@ -214,6 +261,8 @@ def stepBase (st : DState) (ts : List String) (impl : String) : DState × String
       let m := " ".intercalate (toString Tickit.Gen.Palette.size :: palettePairs)
       (st, m, if impl = m then "" else "Gen/Palette differs from the table the C compiler sees")
     else (st, "bad-op", "")
+  | ["suspend"] =>
+    if st.mode ≠ "x" ∧ st.mode ≠ "g" then (st, "bad-op", "") else suspendOp st impl
   | [opname, pen] =>
     if st.mode ≠ "x" ∧ st.mode ≠ "g" then (st, "bad-op", "") else
     match opname, parsePen pen with
